@@ -1,5 +1,7 @@
 import Qhttp.Props.C01
 import Qhttp.Lemmas.C02Run
+import Qhttp.Lemmas.C02C01
+import Qhttp.Lemmas.C02First
 import Qhttp.Lemmas.BytesLemmas
 /-
   C02 — the request body reaches the reader intact under every segmentation.
@@ -209,6 +211,11 @@ structure Stream (env : Env) (head : Bytes) (N : Nat) (rest : Bytes) (evs : List
 section plain
 variable {env : Env} {app : App} {head rest : Bytes} {N : Nat} {evs : List Event}
 
+/-- `first` follows from `accepted` (an accepted head contains no blank line) -/
+theorem Stream.of_accepted (shape : readerEvents evs = true) (fed : Scenario.fed evs = head ++ CRLF2 ++ rest)
+    (accepted : ∃ f, C01.expect env head = some f ∧ f.total = (N : Int)) : Stream env head N rest evs :=
+  ⟨shape, fed, first_of_accepted env head (by obtain ⟨f, hf, _⟩ := accepted; rw [hf]; rfl), accepted⟩
+
 theorem Stream.brk (h : Stream env head N rest evs) :
     breakOn CRLF2 (Scenario.fed evs) = some (head, rest) := by
   rw [h.fed]; exact breakOn_of_not_infix rest (by decide) h.first
@@ -337,6 +344,90 @@ theorem hp_before_data (h : Stream env head N rest evs) (happ : ReaderApp app)
 
 end plain
 
+/-! ## C01 at the socket level
+
+  With the application `@hp snap @end` and the socket created before any byte arrives, for every
+  stream and every way of cutting it into segments: `headersParsed` is emitted iff the bytes
+  before the first blank line are an acceptable head, exactly once, and the snapshot taken in
+  the slot shows exactly the expected fields. -/
+
+/-- `@hp snap @end new feed:seg₁ … feed:segₙ` -/
+def snapScenario (segs : List Bytes) : Scenario := ⟨snapApp, .new :: segs.map .feed⟩
+
+theorem snapScenario_inv (env : Env) (segs : List Bytes) :
+    C1Inv env segs.flatten (Scenario.run env (snapScenario segs)) := by
+  have := run_c1 env _ (feeds_ok segs)
+  rw [fed_feeds] at this
+  exact this
+
+/-- every stream, every segmentation (no hypothesis on the head at all) -/
+theorem C01_holds_run (env : Env) (segs : List Bytes) :
+    C01.holds env (snapScenario segs) (Scenario.run env (snapScenario segs)).log = true := by
+  obtain ⟨_, h⟩ := snapScenario_inv env segs
+  unfold C01.holds
+  have hf : Scenario.fed (snapScenario segs).events = segs.flatten := fed_feeds segs
+  rw [hf]
+  rcases h with ⟨h0, hn⟩ | ⟨_, head, rest, f, h1, h2, h3, h4⟩ | ⟨_, head, rest, h1, h2, h3⟩
+  · simp [C01.headOf, hn, h0.hp]
+  · simp [C01.headOf, h1, h2, h3, h4]
+  · simp [C01.headOf, h1, h2, h3]
+
+/-- accepted head: `headersParsed` exactly once and the slot sees exactly the expected fields,
+    for every `rest` and every segmentation of `head ++ CRLF2 ++ rest`.  (An accepted head never
+    contains a blank line and the one that ends it is the first of the stream:
+    `first_of_accepted`, so no separation hypothesis is needed.) -/
+theorem C01_holds_run_accepted (env : Env) (head rest : Bytes) (f : Snap) (segs : List Bytes)
+    (hacc : C01.expect env head = some f)
+    (hflat : segs.flatten = head ++ CRLF2 ++ rest) :
+    C01.holds env (snapScenario segs) (Scenario.run env (snapScenario segs)).log = true ∧
+    Obs.countP Obs.isHp (Scenario.run env (snapScenario segs)).log = 1 ∧
+    C01.firstSnap (Scenario.run env (snapScenario segs)).log = some f := by
+  refine ⟨C01_holds_run env segs, ?_⟩
+  obtain ⟨_, h⟩ := snapScenario_inv env segs
+  have hfirst := first_of_accepted env head (by rw [hacc]; rfl)
+  have hb : breakOn CRLF2 segs.flatten = some (head, rest) := by
+    rw [hflat]; exact breakOn_of_not_infix rest (by decide) hfirst
+  rcases h with ⟨h0, hn⟩ | ⟨_, head', rest', f', h1, h2, h3, h4⟩ | ⟨_, head', rest', h1, h2, h3⟩
+  · rw [hb] at hn; exact absurd hn (by simp)
+  · rw [hb] at h1
+    simp only [Option.some.injEq, Prod.mk.injEq] at h1
+    obtain ⟨rfl, rfl⟩ := h1
+    rw [hacc] at h2
+    simp only [Option.some.injEq] at h2
+    subst h2
+    exact ⟨h3, h4⟩
+  · rw [hb] at h1
+    simp only [Option.some.injEq, Prod.mk.injEq] at h1
+    obtain ⟨rfl, rfl⟩ := h1
+    rw [hacc] at h2; exact absurd h2 (by simp)
+
+/-- rejected head: no `headersParsed`, whatever follows and however the stream is cut -/
+theorem C01_holds_run_rejected (env : Env) (head rest : Bytes) (segs : List Bytes)
+    (hrej : C01.expect env head = none) (hfirst : ¬ CRLF2 <:+: head ++ CRLF2.dropLast)
+    (hflat : segs.flatten = head ++ CRLF2 ++ rest) :
+    C01.holds env (snapScenario segs) (Scenario.run env (snapScenario segs)).log = true ∧
+    Obs.countP Obs.isHp (Scenario.run env (snapScenario segs)).log = 0 := by
+  refine ⟨C01_holds_run env segs, ?_⟩
+  obtain ⟨_, h⟩ := snapScenario_inv env segs
+  have hb : breakOn CRLF2 segs.flatten = some (head, rest) := by
+    rw [hflat]; exact breakOn_of_not_infix rest (by decide) hfirst
+  rcases h with ⟨h0, hn⟩ | ⟨_, head', rest', f', h1, h2, h3, h4⟩ | ⟨_, head', rest', h1, h2, h3⟩
+  · rw [hb] at hn; exact absurd hn (by simp)
+  · rw [hb] at h1
+    simp only [Option.some.injEq, Prod.mk.injEq] at h1
+    obtain ⟨rfl, rfl⟩ := h1
+    rw [hrej] at h2; exact absurd h2 (by simp)
+  · exact h3
+
+/-- no blank line yet: no `headersParsed` -/
+theorem C01_holds_run_incomplete (env : Env) (segs : List Bytes) (hno : ¬ CRLF2 <:+: segs.flatten) :
+    Obs.countP Obs.isHp (Scenario.run env (snapScenario segs)).log = 0 := by
+  obtain ⟨_, h⟩ := snapScenario_inv env segs
+  rcases h with ⟨h0, hn⟩ | ⟨_, head', rest', f', h1, h2, h3, h4⟩ | ⟨_, head', rest', h1, h2, h3⟩
+  · exact h0.hp
+  · exact absurd (breakOn_some_infix h1) hno
+  · exact absurd (breakOn_some_infix h1) hno
+
 /-! ### non-vacuity: a run with the blank line split between segments and a lazy reader -/
 
 /-- a concrete environment for examples: every target is a valid URL with an empty query -/
@@ -374,5 +465,19 @@ example : Stream envEx headEx 3 [97, 98, 99, 88] evsEx where
     cases h : C01.expect envEx headEx with
     | none => rw [h] at ht; exact absurd ht (by simp)
     | some f => rw [h] at ht; exact ⟨f, rfl, by simpa using ht⟩
+
+/-! C01 at the socket level: the same stream (accepted head, blank line split between segments),
+    and a rejected head `BAD` -/
+example : C01.holds envEx (snapScenario [seg1, seg2, seg3]) (Scenario.run envEx (snapScenario [seg1, seg2, seg3])).log = true := by
+  decide +kernel
+example : (C01.expect envEx headEx).isSome = true ∧
+    [seg1, seg2, seg3].flatten = headEx ++ CRLF2 ++ [97, 98, 99, 88] :=
+  ⟨by decide +kernel, by decide +kernel⟩
+example : Obs.countP Obs.isHp (Scenario.run envEx (snapScenario [seg1, seg2, seg3])).log = 1 := by decide +kernel
+example : C01.expect envEx [66, 65, 68] = none ∧ ¬ CRLF2 <:+: [66, 65, 68] ++ CRLF2.dropLast ∧
+    [[66, 65, 68, 13], [10, 13], [10, 120]].flatten = [66, 65, 68] ++ CRLF2 ++ [120] :=
+  ⟨by decide +kernel, by rw [← isInfixB_iff]; decide +kernel, by decide +kernel⟩
+example : Obs.countP Obs.isHp (Scenario.run envEx (snapScenario [[66, 65, 68, 13], [10, 13], [10, 120]])).log = 0 := by
+  decide +kernel
 
 end Qhttp.C02
